@@ -77,7 +77,7 @@ func TestC45(t *testing.T) {
 	})
 
 	// ---- structured mutation ----
-	total := m.N(48000, 2400000)
+	total := m.N(80000, 2400000)
 	m.Cases("mutation", total, func(i int64, r *rand.Rand) {
 		if st.aborted {
 			return
@@ -112,7 +112,7 @@ func TestC45(t *testing.T) {
 	m.Gate("corpus_repo_msg", 5, "constants extracted from the repository's tests")
 	m.Gate("directed_cases", 500, "hand-built boundary inputs executed")
 	for _, e := range allEntries {
-		m.Gate("entry:"+e, m.N(1000, 50000), "mutated inputs through this entry point")
+		m.Gate("entry:"+e, m.N(1500, 50000), "mutated inputs through this entry point")
 	}
 	m.Gate("entry:"+eHostileRing, m.N(500, 25000), "mutated keyrings used as the keyring of CheckDetachedSignature/ReadMessage")
 	m.Gate("mutated_inside_encryption", m.N(1000, 50000), "packets mutated below the encryption layer and re-encrypted")
